@@ -51,6 +51,8 @@ br_ecdsa_i31_bits2int(uint32_t *x,
 	 */
 	hbitlen = (uint32_t)len << 3;
 	x[0] = hbitlen + (hbitlen / 31);
+	BR_VERIF_PUBLIC_MEM(x, sizeof *x);   /* header: length of the source string */
 	br_i31_rshift(x, sc);
 	x[0] = ebitlen;
+	BR_VERIF_PUBLIC_MEM(x, sizeof *x);   /* header: announced length of the modulus */
 }
